@@ -20,7 +20,7 @@ def kind_pairs(o):
     return set((a, b) for i, a in enumerate(kinds) for b in kinds[i + 1:])
 
 
-def conc_stage(ctx, name, tier, gate_blobs=False, max_schedules=400, txn_ops=False, only=None):
+def conc_stage(ctx, name, tier, gate_blobs=False, max_schedules=400, txn_ops=False, only=None, txn_end=False, tagged=False):
     vh = ctx.build()
     sd = ctx.specdir()
     work = tempfile.mkdtemp(prefix="conc-", dir=ctx.scratch)
@@ -32,6 +32,10 @@ def conc_stage(ctx, name, tier, gate_blobs=False, max_schedules=400, txn_ops=Fal
         cmd.append("--gate-txn-ops")
     if only:
         cmd += ["--only", only]
+    if txn_end:
+        cmd.append("--gate-txn-end")
+    if tagged:
+        cmd.append("--tagged")
     r = subprocess.run(cmd, capture_output=True, text=True, env=ENV, timeout=3000)
     if r.returncode != 0:
         raise Inconclusive("conc-explore failed: " + r.stdout[-500:] + r.stderr[-1500:])
@@ -67,9 +71,20 @@ def conc_stage(ctx, name, tier, gate_blobs=False, max_schedules=400, txn_ops=Fal
         ex = {"history": ["%s" % s for s in o["steps"]], "call": json.dumps(o["program"]), "expected": "a sequential order of the operations reproducing results and final tree (FSCore)",
               "detail": "; ".join(o["results"]) + (" HANG" if o["hang"] else ""), "state": "", "init": ""}
         ctx.divs.append({"prop": "C15", "sig": sig, "count": 1, "example": ex, "stage": name, "module": "conc", "adapter": "mem",
-                         "vh_args": [], "init": "", "conc": {"program": o["program"], "schedule": o["schedule"], "gate_blobs": gate_blobs, "gate_txn_ops": txn_ops}})
+                         "vh_args": [], "init": "", "conc": {"program": o["program"], "schedule": o["schedule"], "gate_blobs": gate_blobs, "gate_txn_ops": txn_ops, "gate_txn_end": txn_end}})
     for o in two:
         add(o, ("conc-hang " if o["hang"] else "") + conc_sig2(o))
+    def prog_sig(o):
+        th = [";".join(op["op"] + "(" + op["p"] + ("," + op["q"] if op.get("q") else "") + ")" for op in t) for t in o["program"]["threads"]]
+        res = [r.split(" => ", 1)[1].replace('"-"', "").strip() for r in o["results"]]
+        files = re.findall(r'<<([^>]*)>> :> \[k \|-> "file", perm \|-> -?\d+, mt \|-> "\*", d \|-> (<<[^>]*>>)\]', o.get("final", ""))
+        fin = " ".join("%s=%s" % (p.replace('"', "").replace(", ", "/"), d.replace(" ", "")) for p, d in files)
+        return "conc-prog %s %s => %s ; final %s" % (o["program"]["start"], " || ".join(th), " , ".join(res), fin)
+    tagged = [o for o in rest if o["program"].get("tag")]
+    rest = [o for o in rest if not o["program"].get("tag")]
+    for o in tagged:
+        # hand-picked programs: every rejected history is identified by itself
+        add(o, ("conc-hang " if o["hang"] else "") + prog_sig(o))
     for o in rest:
         # programs beyond two single operations: attributed to the known non-atomic operation pairs they contain
         pairs = kind_pairs(o)
@@ -110,10 +125,13 @@ def c15_stages(ctx):
     if ctx.tier == "quick":
         conc_stage(ctx, "conc-2x1", "quick")
         conc_stage(ctx, "conc-2x1-txnops", "quick", txn_ops=True, only="rename")
+        # the hand-picked programs with the return of every Commit as a further scheduling point
+        conc_stage(ctx, "conc-tagged-txnend", "quick", txn_end=True, tagged=True, max_schedules=3000)
         race_stage(ctx, 5)
     else:
         conc_stage(ctx, "conc-2x1", "quick")
         conc_stage(ctx, "conc-2x1-txnops", "quick", txn_ops=True, max_schedules=600)
+        conc_stage(ctx, "conc-tagged-txnend", "quick", txn_end=True, tagged=True, max_schedules=20000)
         conc_stage(ctx, "conc-2x1-blobs", "quick", gate_blobs=True, max_schedules=1500)
         conc_stage(ctx, "conc-3x1-2x2", "thorough", max_schedules=600)
         race_stage(ctx, 30)
